@@ -722,8 +722,8 @@ static void CodeString(Word Index) {
 }
 
 static void CodePHASE(Word Index) {
-    Boolean OK;
-    LongInt HVal;
+    Boolean   OK;
+    LargeWord HVal;
     UNUSED(Index);
 
     if (!ChkArgCnt(1, 1))
@@ -731,7 +731,7 @@ static void CodePHASE(Word Index) {
     else if (ActPC == StructSeg) {
         WrError(ErrNum_PhaseDisallowed);
     } else {
-        HVal = EvalStrIntExpression(&ArgStr[1], Int32, &OK);
+        HVal = EvalStrIntExpression(&ArgStr[1], LargeUIntType, &OK);
         if (OK) {
             tSavePhase* pSavePhase;
 
